@@ -44,6 +44,8 @@ def catalogue(present_kinds):
             how = "replace" if kind in pres else "add"
             for ln in ((256, 257, 300) if what == "comment-too-long" else (0,)):
                 out.append({"what": what, "kind": kind, "how": how, "comment_len": ln})
+            if how == "replace":
+                out.append({"what": what, "kind": kind, "how": how, "comment_len": 256, "same_as_stored": True})
     return out
 
 
@@ -55,6 +57,10 @@ def materialise(rng, r, pres):
                 o["fault"][k] = r[k]
     if "comment_len" in r:
         o["comment_len"] = r["comment_len"]
+    if "same_as_stored" in r:
+        o["same_as_stored"] = r["same_as_stored"]
+    else:
+        o.pop("same_as_stored", None)
     return o
 
 
